@@ -8,7 +8,7 @@ python3 - <<'PY'
 import sys, os, glob
 sys.path.insert(0, "lib")
 import vlib
-ok, out = vlib.coq_make(["all"] if False else [f[:-2] + ".vo" for f in vlib.coq_files()], timeout=3000)
+ok, out = vlib.coq_make([f[:-2] + ".vo" for f in vlib.coq_files()], timeout=3000, keep_going=True)
 print(out[-3000:])
 print("coq build ok" if ok else "coq build FAILED (checks will report per property)")
 for drv in sorted(glob.glob("ocaml/*_driver.ml")):
